@@ -387,6 +387,13 @@ fn build_positional_closures(b: &mut InstrSeqBuilder, nodes: &[TNode], env: &Env
 }
 
 fn build_module(t: &TFunc, order: u32, seed: u64) -> Vec<u8> {
+    build_module_mode(t, order, seed, 0)
+}
+
+/// mode 0: build, emit. mode 1: build, emit, edit the finished function through `builder_mut` (a read of one
+/// of its locals - possibly one the body did not mention so far - in front of the body), emit again and return
+/// that second emission. mode 2: build, the same edit, emit once. Modes 1 and 2 must give the same bytes.
+fn build_module_mode(t: &TFunc, order: u32, seed: u64, mode: u8) -> Vec<u8> {
     let mut cfg = ModuleConfig::new();
     cfg.generate_producers_section(false);
     let mut m = Module::with_config(cfg);
@@ -473,6 +480,22 @@ fn build_module(t: &TFunc, order: u32, seed: u64) -> Vec<u8> {
     let f = fb.finish(locals[..t.params.len()].to_vec(), &mut m.funcs);
     m.exports.add("f", f);
     m.exports.add("helper", helper);
+    if mode == 0 {
+        return m.emit_wasm();
+    }
+    if mode == 1 {
+        let _first = m.emit_wasm();
+    }
+    {
+        let lf = m.funcs.get_mut(f).kind.unwrap_local_mut();
+        let mut b = lf.builder_mut().func_body();
+        if locals.is_empty() {
+            b.const_at(0, Value::I32(5));
+        } else {
+            b.local_get_at(0, locals[(seed % locals.len() as u64) as usize]);
+        }
+        b.drop_at(1);
+    }
     m.emit_wasm()
 }
 
@@ -492,5 +515,14 @@ pub fn run(input: &[u8], rec: &mut Rec) {
             Ok(out) => rec.push_b(&format!("out.{}", order), &out),
             Err(p) => rec.push_s(&format!("panic.{}", order), &p),
         }
+    }
+    // one order per tree: emit, edit through builder_mut, emit again - against edit first, emit once
+    let order = 1 + (index % 8) as u32;
+    match guarded(|| (build_module_mode(&t, order, seed ^ index, 1), build_module_mode(&t, order, seed ^ index, 2))) {
+        Ok((second, fresh)) => {
+            rec.push_b("reemit.second", &second);
+            rec.push_b("reemit.fresh", &fresh);
+        }
+        Err(p) => rec.push_s("panic.reemit", &p),
     }
 }
